@@ -201,6 +201,13 @@ func c08Scenarios(tier string) []*Scenario {
 			}
 			add(prepare(&c08Case{name: "retry", stack: []Spec{retry}, script: failing, source: src, at: at}))
 		}
+		// the cancellation lands inside the last permitted attempt, which then fails with its own error
+		retry1 := Spec{Kind: KRetry, MaxRetries: 1, Delay: R}
+		lastFails := []Out{coop(20, E1, 0), coop(20, E1, 0)}
+		for _, at := range []time.Duration{70, 80} {
+			add(prepare(&c08Case{name: "retry-last-attempt", stack: []Spec{retry1}, script: lastFails, source: src, at: at}))
+			add(prepare(&c08Case{name: "retry-last-attempt-returnlast", stack: []Spec{{Kind: KRetry, MaxRetries: 1, Delay: R, ReturnLast: true}}, script: lastFails, source: src, at: at}))
+		}
 		add(prepare(&c08Case{name: "retry-nodelay", stack: []Spec{retry0}, script: failing, source: src, at: 30}))
 		add(prepare(&c08Case{name: "retry-blocking", stack: []Spec{retry}, script: blocking, source: src, at: 30}))
 		add(prepare(&c08Case{name: "fallback(retry)", stack: []Spec{fb, retry}, script: failing, source: src, at: 40}))
